@@ -343,7 +343,28 @@ def r4(ctx: Ctx) -> None:
     csd = deref(csm, single_defs(csm))
     sw = Sigma(raw_subst={("p", 0): ("p", 1), ("p", 1): ("p", 0)})
     rets = [st for st in csd if st[0] == "ret"]
-    if len(rets) != 1 or not contains(rets[0], ("g", "expr_sqrt")) or not (contains(rets[0], ("p", 2))):
+
+    def numbers(x):
+        """ExpressionTree(gekko, k) is the number k; e ** 2 is e * e"""
+        if isinstance(x, tuple):
+            if len(x) == 4 and x[0] == "c" and x[1] == ("g", "ExpressionTree") and len(x[2]) == 2 and x[2][1][:2] == ("k", "num") and not x[3]:
+                return x[2][1]
+            y = tuple(numbers(z) for z in x)
+            if y and y[0] == "pow" and len(y) == 3 and y[2] == k_num(2):
+                return (to_poly(y[1]) * to_poly(y[1])).to_s()
+            return y
+        return x
+    X, Y, TAU = ("p", 0), ("p", 1), ("p", 2)
+    diff_ = to_poly(X) - to_poly(Y)
+    inner = (diff_ * diff_ + to_poly(k_num(4)) * to_poly(TAU) * to_poly(TAU)).to_s()
+    half_ = to_poly(k_num(__import__("fractions").Fraction(1, 2)))
+    want_smax = (half_ * (to_poly(X) + to_poly(Y) + to_poly(("c", ("g", "expr_sqrt"), (inner,), ())))).to_s()
+    got_smax = None
+    if len(rets) == 1 and len(csd) == 1:
+        got_smax = numbers(rets[0][1])
+        for _ in range(3):
+            got_smax = Sigma(raw_subst={}).apply(numbers(got_smax))
+    if got_smax != want_smax:
         ctx.report(sm.where, "smax-definition", "smax is not the smoothed maximum (x + y + sqrt((x-y)^2 + 4 tau^2)) / 2", lineno=sm.node.lineno)
 
 
